@@ -458,6 +458,8 @@ def run(chk: Check):
     rule_m2(chk, ix)
     rule_m6(chk, ir)
     rule_m7(chk, ir)
+    from .bufeval import rule_buffer_evaluation
+    rule_buffer_evaluation(chk, "capture", "M1-must-append")
     macros.rule_m3(chk, ix, ir)
     rule_m4(chk, ix, tr.interp)
     macros.rule_m5(chk, ix)
